@@ -817,8 +817,11 @@ theorem seconds_exact_of_5dec (k : ℕ) (hk : k < 2 ^ 36 * 10 ^ 5) :
 
 /-! ### sharpness and excluded points (kernel-checked) -/
 
-/-- the bound of `parse_fmt5_exact_of_5dec` is sharp: the double nearest to `2^36 + 0.00001` is `2^36 + 2^-16`, which
-is printed as `…​.00002` — above 2^36 the doubles are more than 1e-5 apart, so not every five-decimal text survives
+/-- the bound of `parse_fmt5_exact_of_5dec` cannot be raised past the next grid point: the hypothesis is
+`k < 2^36·10^5`; `k = 2^36·10^5` (the value 2^36 itself) still satisfies the conclusion, and the first failing point is
+`k = 2^36·10^5 + 1`: the double nearest to `2^36 + 0.00001` is `2^36 + 2^-16`, whose number of 1e-5 units after
+`roundHalfEven` is `…00002` (this is a statement about `roundHalfEven (x·10^5)`, the integer that `fmt5` then prints,
+not about the text) — above 2^36 the doubles are more than 1e-5 apart, so not every five-decimal text survives
 parse -> print (the VALUE read back still does: `parse_fmt5_idempotent`) -/
 theorem grid_bound_sharp :
     roundHalfEven (rn53 (mkRat (2 ^ 36 * 10 ^ 5 + 1) 100000) * 100000) = 2 ^ 36 * 10 ^ 5 + 2 := by decide +kernel
@@ -847,8 +850,14 @@ theorem float_negative_tiny_stable :
 open Earverif.XmlCodec in
 /-- `floatCodec` of the handler-table model works on integers `k` (meaning `k / 10^5`).  For `|k| / 10^5 < 2^36` its
 text is exactly what the real `FloatType.dumps` prints for the double nearest to `k / 10^5` (with the sign of `k`), and
-the real `FloatType.loads` maps that text to that double: every table / class theorem stated over `Leaf.num k` is a
-statement about those doubles and the real text. -/
+the real `FloatType.loads` maps that text to that double.  This is a statement about ONE leaf: it is not composed
+with the class / document theorems (`C08_roundtrip_model` is stated over `Leaf.num (k : ℤ)` with no bound on `k` in
+`Valid` / `DocValid`, so it also covers leaves such as `dumpsNum (2^36·10^5 + 1)`, a text the printer does not produce
+for the nearest double: `grid_model_excluded_points`).  Reading a class theorem as a statement about doubles needs, for
+each `num` leaf `k` of the element, `|k| < 2^36·10^5` and this theorem, applied leaf by leaf by the reader; and
+`loadsNum` is the inverse of `dumpsNum` on its image only, not `float()`: other spellings (`0.5`, `1`, `1e0`) are
+`none` in the model, and `-0.00000` is read as the integer 0 where `float()` keeps `-0.0`
+(`grid_model_excluded_points`). -/
 theorem floatCodec_refines (k : ℤ) (hk : k.natAbs < 2 ^ 36 * 10 ^ 5) :
     (dumpsNum k).toList = fmt5 (.fin (decide (k < 0)) (rn53 ((k.natAbs : ℚ) / 100000))) ∧
     parseFloat (dumpsNum k).toList = some (.fin (decide (k < 0)) (rn53 ((k.natAbs : ℚ) / 100000))) ∧
@@ -858,5 +867,52 @@ theorem floatCodec_refines (k : ℤ) (hk : k.natAbs < 2 ^ 36 * 10 ^ 5) :
     unfold dumpsNum numText
     simp only [String.toList_ofList, decide_eq_true_eq]
   exact ⟨by rw [htxt, hf], by rw [htxt]; exact hp, loadsNum_dumpsNum k, hd⟩
+
+open Earverif.XmlCodec in
+/-- **`SecondsType` on the grid** (jumpPosition `interpolationLength`, modelled in `Model/XmlCustom.lean` with
+`dumpsNum` / `loadsNum` although the real reader is `Fraction(str)` and the real writer `"{:07.5f}".format(float(t))`):
+for `0 ≤ k`, `k / 10^5 < 2^36`, the real writer applied to the Fraction `k / 10^5` prints exactly `dumpsNum k`, the
+real reader maps that text to exactly `k / 10^5`, and the model's reader gives `k`.  (`k < 0` is outside: an
+interpolationLength is non-negative; `k = 0` is `0.00000`, there is no negative zero among the integers.) -/
+theorem secondsCodec_refines (k : ℤ) (h0 : 0 ≤ k) (hk : k.natAbs < 2 ^ 36 * 10 ^ 5) :
+    secondsDumps ((k : ℚ) / 100000) = some (dumpsNum k).toList ∧
+    parseFraction (dumpsNum k).toList = some ((k : ℚ) / 100000) ∧
+    loadsNum (dumpsNum k) = some k := by
+  obtain ⟨hd, hp⟩ := seconds_exact_of_5dec k.natAbs hk
+  have hcast : ((k.natAbs : ℕ) : ℚ) = (k : ℚ) := by
+    rw [Nat.cast_natAbs, abs_of_nonneg h0]
+  have htxt : (dumpsNum k).toList = numText k.natAbs := by
+    unfold dumpsNum numText
+    simp only [String.toList_ofList, if_neg (not_lt.mpr h0)]
+  rw [hcast] at hd hp
+  exact ⟨by rw [htxt]; exact hd, by rw [htxt]; exact hp, loadsNum_dumpsNum k⟩
+
+open Earverif.XmlCodec in
+/-- no grid leaf is printed as `-0.00000`: the text the real code writes for `-0.0` and for every negative double
+that rounds to zero (gain = -1e-7) has no counterpart `Leaf.num k`, so the class theorems say nothing about it -/
+theorem negzero_not_grid (k : ℤ) : (dumpsNum k).toList ≠ ['-', '0', '.', '0', '0', '0', '0', '0'] := by
+  intro h
+  have h1 := loadsNum_dumpsNum k
+  have h2 : loadsNum (dumpsNum k) = some 0 := by
+    unfold loadsNum; rw [h]; decide +kernel
+  have hk : k = 0 := by rw [h1] at h2; injection h2
+  subst hk
+  revert h; decide +kernel
+
+open Earverif.XmlCodec in
+/-- where the printable-grid model (`Leaf.num k`, `dumpsNum`, `loadsNum`) and the real float leaf differ (kernel-checked
+on the executable models): (1) the double nearest to -1e-7 is printed `-0.00000`, which `float()` reads as `-0.0`, while
+the model reads it as the integer 0 and prints 0 as `0.00000`; (2) `loadsNum` is not `float()`: `0.5`, `1`, `1e0` are
+`none` in the model, numbers for `float()`; (3) the class theorems have no bound on `k`: the leaf `2^36·10^5 + 1` is
+printed by the model as `68719476736.00001`, which is not what `"{:.5f}"` prints for the nearest double -/
+theorem grid_model_excluded_points :
+    (fmt5 (.fin true (rn53 (mkRat 1 (10 ^ 7)))) = ['-', '0', '.', '0', '0', '0', '0', '0'] ∧
+     parseFloat ['-', '0', '.', '0', '0', '0', '0', '0'] = some (.fin true 0) ∧
+     loadsNum "-0.00000" = some 0 ∧ dumpsNum 0 = "0.00000") ∧
+    (loadsNum "0.5" = none ∧ loadsNum "1" = none ∧ loadsNum "1e0" = none ∧
+     parseFloat ['0', '.', '5'] = some (.fin false (mkRat 1 2)) ∧ parseFloat ['1'] = some (.fin false 1) ∧
+     parseFloat ['1', 'e', '0'] = some (.fin false 1)) ∧
+    (dumpsNum (2 ^ 36 * 10 ^ 5 + 1)).toList ≠ fmt5 (.fin false (rn53 (mkRat (2 ^ 36 * 10 ^ 5 + 1) 100000))) := by
+  decide +kernel
 
 end Earverif.FloatText
